@@ -28,7 +28,7 @@
        ComputeMissed           pending count and new target = ComputeMissed(r, now, 0)
        ProgramsMinimum         MProg programs the kernel timer with MinTarget, deletes it iff the heap is empty or due
        ArmedImpliesProgrammed  when the manager blocks, every non-empty heap has its kernel timer enabled at <= MinTarget
-       TimeMonotone            the `now` values the manager uses never decrease
+       TimeMonotone            the `now` values the manager uses never decrease (clocks 1, 2; the wall clock 3 may be stepped)
    `bad` names the first law broken ("LAW ...") or the first record the state rebuilt so far
    cannot explain structurally ("DRIFT ...": the probes or this module are out of date). *)
 EXTENDS Integers, FiniteSets, Sequences, TLC, Json, IOUtils, TLCExt, TimerLaws
@@ -78,7 +78,7 @@ TRun == /\ Ev("run")
         /\ Judge(<< <<am[Rec.t].armed /\ am[Rec.t].clk = Rec.c /\ am[Rec.t].tgt = Val(Rec.tgt),
                       "DRIFT", "run examines a timer whose recorded arming differs">>,
                     <<Rec.t \in MinTimers(am, Rec.c), "LAW", "RunTakesMinimum: dth_min[TARGET] is not a timer with the smallest target">>,
-                    <<Rec.now >= tnow[Rec.c], "LAW", "TimeMonotone: the manager used a `now` smaller than before">> >>)
+                    <<Rec.c = 3 \/ Rec.now >= tnow[Rec.c], "LAW", "TimeMonotone: the manager used a `now` smaller than before">> >>)
         /\ UNCHANGED <<am, kt, ken>>
 \* the fire branch of _dispatch_timers_run: compute_missed; (re)arm or disarm follow as their own records
 TFire == /\ Ev("fire")
@@ -99,7 +99,7 @@ TProg == /\ Ev("prog")
                         <<Rec.cls = 2 \/ mt < INF, "LAW", "ProgramsMinimum: heap empty but a delay computed">>,
                         <<Rec.cls # 0 \/ mt <= Rec.now, "LAW", "ProgramsMinimum: delay 0 although the minimum target is in the future">>,
                         <<Rec.cls # 1 \/ mt > Rec.now \/ (fuzzy /\ mt = Rec.now), "LAW", "ProgramsMinimum: minimum target is due but a positive delay was computed">>,
-                        <<Rec.cls = 2 \/ Rec.now >= tnow[Rec.c], "LAW", "TimeMonotone: the manager used a `now` smaller than before">> >>)
+                        <<Rec.cls = 2 \/ Rec.c = 3 \/ Rec.now >= tnow[Rec.c], "LAW", "TimeMonotone: the manager used a `now` smaller than before">> >>)
          /\ tnow' = [tnow EXCEPT ![Rec.c] = IF Rec.cls = 2 THEN @ ELSE Rec.now]
          /\ UNCHANGED <<am, kt, ken, lastrun>>
 \* _dispatch_timeout_program(tidx, target): timerfd_settime(ABSTIME target) + epoll ADD/MOD, or EPOLL_CTL_DEL
